@@ -539,16 +539,9 @@ func runC05(cx *CheckCtx) {
 		cx.violated("fee-loop", "container.PutNamed/loop", "the fee transfer is not in a loop of PutNamed over the Alphabet keys", fee.Where(w))
 	} else {
 		cx.decide(!a.termInLoop(amt, fee.Ctx, hdr) && !a.termInLoop(from, fee.Ctx, hdr), "fee-loop", "container.PutNamed/invariant", "amount and payer are loop-invariant", "the charged amount or the payer changes between Alphabet nodes", fee.Where(w))
-		// exits only through the header
-		okExit := true
-		for _, e := range loopExits(hdr) {
-			if e.from != hdr {
-				if _, isPanic := e.to.Instrs[len(e.to.Instrs)-1].(*ssa.Panic); !isPanic {
-					okExit = false
-				}
-			}
-		}
-		cx.decide(okExit, "fee-loop", "container.PutNamed/no-early-exit", "the loop ends only when the keys are exhausted", "the fee loop can be left before every Alphabet node was paid", fee.Where(w))
+		// every key is paid: the loop ends only on exhaustion and no iteration goes round the call
+		okExit, whyExit := everyElement(a, fee, nil)
+		cx.decide(okExit, "fee-loop", "container.PutNamed/no-early-exit", "the loop ends only when the keys are exhausted and every iteration pays", "not every Alphabet node is paid: "+whyExit, fee.Where(w))
 		okTo := isCall(to, "contract.CreateStandardAccount") && to.Args[0].Op == "elem" && keySource(tb, to.Args[0].Args[0]) == "committee"
 		cx.decide(okTo, "fee-loop", "container.PutNamed/receiver", "to = standard account of each committee key", "the fee receiver is "+to.pretty()+", not the account of each Alphabet key", fee.Where(w))
 		// range over the whole list: index starts at 0 and steps by 1 (Go range) — the element index term
@@ -694,6 +687,14 @@ func runC14(cx *CheckCtx) {
 			pr := keyParts(putR.Args[1])
 			cx.decide(len(pr) == 3 && pr[1] == cid && putR.Args[2].Op == "elem" && putR.Args[2].Args[0] == paramTerm(tb, m, "replicas"), "commit-swap", "container.CommitContainerListUpdate/r",
 				"'r'‖cid‖index → replicas[index]", "REP numbers are stored as "+putR.Args[1].pretty()+" → "+putR.Args[2].pretty(), putR.Where(w))
+			// every item: each of the five loops ends only on exhaustion and no iteration goes round its operation
+			okEvery, whyEvery := true, ""
+			for _, s := range []*Site{delN, delU, delR, putN, putR} {
+				if ok, why := everyElement(a, s, nil); !ok {
+					okEvery, whyEvery = false, siteDesc(a, s)+": "+why
+				}
+			}
+			cx.decide(okEvery, "commit-swap", "container.CommitContainerListUpdate/every-item", "every old 'n'/'r' key is deleted, every pending 'u' entry moved, every REP number written", "the commit does not treat every item: "+whyEvery+"; stale roster entries survive or pending ones are lost", putN.Where(w))
 			cx.decide(a.holdsAt(putN.In, a.litEqC(a.litLen(cid), 32)), "commit-swap", "container.CommitContainerListUpdate/cid-len", "len(cid) == 32 established", "commit runs for container ids of unchecked length", putN.Where(w))
 		}
 	}
